@@ -92,6 +92,20 @@ def gen_strings(tier):
     for lit in ["1", "1.5", "10", "True"]:
         out += [f"{lit} + {a}", f"{a} * {lit}", f"{a} ** {lit}" if lit != "1.5" else f"{a} * {lit}", f"-{lit}", f"{a} - {lit}",
                 f"{lit} - {a}", f"{a} // {lit}" if lit != "True" else f"{a} + {lit}", f"f({lit})", f"v[{lit}]" if lit != "1.5" else "v[2]"]
+    # numeric literals as operands of prefix and binary operators (a lexer / parser may treat "-2" specially)
+    for u in UN:
+        for o in BIN:
+            out += [f"{u}2 {o} {b}", f"{a} {o} {u}2", f"{u}2 {o} 3", f"{u}2{o if o.isalpha() is False else ' ' + o + ' '}3",
+                    f"{u}1.5 {o} {b}", f"{u}True {o} {b}"]
+    for o1 in BIN:
+        for o2 in BIN:
+            out.append(f"{a} {o1} -2 {o2} {b}")
+            out.append(f"-2 {o1} {a} {o2} 3")
+            if tier == "thorough":
+                for u in UN[1:]:
+                    out.append(f"{a} {o1} {u}2 {o2} {b}")
+                out.append(f"{a} {o1} -2.5 {o2} {b}")
+                out.append(f"{a} {o1} 2 {o2} -3")
     if tier == "thorough":
         for o1 in BIN:
             for o2 in BIN:
